@@ -302,6 +302,13 @@ impl Table {
         let mut t = Table::default();
         t.arr.reserve(narr);
         t.entries.reserve(nhash);
+        if nhash > SMALL {
+            let mut cap = 16;
+            while cap < nhash * 2 + 2 {
+                cap *= 2;
+            }
+            t.index = vec![EMPTY; cap];
+        }
         t
     }
 
@@ -467,7 +474,8 @@ impl Table {
         self.index = index;
     }
 
-    fn hash_set(&mut self, key: Value, val: Value) {
+    /// returns the index of the entry (usize::MAX if nothing was stored)
+    fn hash_set(&mut self, key: Value, val: Value) -> usize {
         let hash = hash_value(&key);
         if let Some(ix) = self.find(&key, hash) {
             let e = &mut self.entries[ix];
@@ -479,10 +487,10 @@ impl Table {
             } else if !was_nil && is_nil {
                 self.live -= 1;
             }
-            return;
+            return ix;
         }
         if val.is_nil() {
-            return;
+            return usize::MAX;
         }
         // new key
         let need_rebuild = if self.index.is_empty() {
@@ -493,7 +501,13 @@ impl Table {
         self.entries.push(Entry { key, val, hash });
         self.live += 1;
         if need_rebuild {
+            let had_tombstones = (self.live as usize) < self.entries.len();
             self.rebuild_index();
+            if had_tombstones {
+                // entries were compacted: look the key up again
+                let k = self.entries.len() - 1;
+                return k;
+            }
         } else if !self.index.is_empty() {
             let mask = self.index.len() - 1;
             let mut p = hash as usize & mask;
@@ -502,6 +516,7 @@ impl Table {
             }
             self.index[p] = (self.entries.len() - 1) as u32;
         }
+        self.entries.len() - 1
     }
 
     pub fn set_int(&mut self, i: i64, val: Value) {
@@ -558,7 +573,9 @@ impl Table {
                 }
                 match crate::numfmt::float_to_int(f, 0) {
                     Some(i) => self.set_int(i, val),
-                    None => self.hash_set(Value::Float(f), val),
+                    None => {
+                        self.hash_set(Value::Float(f), val);
+                    }
                 }
                 Ok(())
             }
@@ -582,8 +599,8 @@ impl Table {
         }
     }
 
-    pub fn set_str(&mut self, key: &LStr, val: Value) {
-        self.hash_set(Value::Str(key.clone()), val);
+    pub fn set_str(&mut self, key: &LStr, val: Value) -> usize {
+        self.hash_set(Value::Str(key.clone()), val)
     }
 
     /// `next`: Ok(None) at the end, Err(()) for an invalid key.
